@@ -364,58 +364,60 @@ theorem RouteInv.drvOp {s s' : St} {ob : Obs} (h : RouteInv s) (sendOk : Bool)
             · intro p hp; simp [Conn.endDriver] at hp
             · rfl
             · rfl
-          · cases hk : o.kind with
-            | single =>
-              simp only [hk, Option.some.injEq, Prod.mk.injEq] at hs
-              rw [← hs.1]
-              apply h.of_tame'
-              · refine Tame.trans (t0 _ ?_ ?_) (tame_dropSenderOpt _ _)
-                · simp [Op.sig, hk]
-                · exact fun f hf => hf
-              · rfl
-              · intro p hp
-                rcases mem_insert hp with rfl | ⟨hin, _⟩
-                · exact Or.inr ⟨o, ho, rfl⟩
-                · exact Or.inl hin
-              · intro p hp; exact Or.inl hp
-              · rfl
-              · rfl
-            | search =>
-              simp only [hk, Option.some.injEq, Prod.mk.injEq] at hs hsm1
-              rw [← hs.1]
-              apply h.of_tame'
-              · refine Tame.trans (t0 _ ?_ ?_) (tack _)
-                · simp [Op.sig, hk]
-                · exact fun f hf => hf
-              · rfl
-              · intro p hp; exact Or.inl hp
-              · intro p hp; exact hsm1 p hp
-              · rfl
-              · rfl
-            | abandon t =>
-              simp only [hk, Option.some.injEq, Prod.mk.injEq] at hs
-              rw [← hs.1]
-              apply h.of_tame
-              · refine Tame.trans (Tame.trans (t0 _ ?_ ?_) (tame_dropSenderOpt _ _)) (tack _)
-                · simp [Op.sig, hk]
-                · exact fun f hf => hf
-              · rfl
-              · intro p hp; exact (mem_erase hp).1
-              · intro p hp; exact (mem_erase hp).1
-              · rfl
-              · rfl
-            | unbind =>
-              simp only [hk, Option.some.injEq, Prod.mk.injEq] at hs
-              rw [← hs.1]
-              apply h.of_tame
-              · refine Tame.trans (t0 _ ?_ ?_) (tack _)
-                · simp [Op.sig, hk]
-                · exact fun f hf => hf
-              · rfl
-              · intro p hp; exact hp
-              · intro p hp; exact hp
-              · rfl
-              · rfl
+          · split at hs
+            · cases hs
+            · cases hk : o.kind with
+              | single =>
+                simp only [hk, Option.some.injEq, Prod.mk.injEq] at hs
+                rw [← hs.1]
+                apply h.of_tame'
+                · refine Tame.trans (t0 _ ?_ ?_) (tame_dropSenderOpt _ _)
+                  · simp [Op.sig, hk]
+                  · exact fun f hf => hf
+                · rfl
+                · intro p hp
+                  rcases mem_insert hp with rfl | ⟨hin, _⟩
+                  · exact Or.inr ⟨o, ho, rfl⟩
+                  · exact Or.inl hin
+                · intro p hp; exact Or.inl hp
+                · rfl
+                · rfl
+              | search =>
+                simp only [hk, Option.some.injEq, Prod.mk.injEq] at hs hsm1
+                rw [← hs.1]
+                apply h.of_tame'
+                · refine Tame.trans (t0 _ ?_ ?_) (tack _)
+                  · simp [Op.sig, hk]
+                  · exact fun f hf => hf
+                · rfl
+                · intro p hp; exact Or.inl hp
+                · intro p hp; exact hsm1 p hp
+                · rfl
+                · rfl
+              | abandon t =>
+                simp only [hk, Option.some.injEq, Prod.mk.injEq] at hs
+                rw [← hs.1]
+                apply h.of_tame
+                · refine Tame.trans (Tame.trans (t0 _ ?_ ?_) (tame_dropSenderOpt _ _)) (tack _)
+                  · simp [Op.sig, hk]
+                  · exact fun f hf => hf
+                · rfl
+                · intro p hp; exact (mem_erase hp).1
+                · intro p hp; exact (mem_erase hp).1
+                · rfl
+                · rfl
+              | unbind =>
+                simp only [hk, Option.some.injEq, Prod.mk.injEq] at hs
+                rw [← hs.1]
+                apply h.of_tame
+                · refine Tame.trans (t0 _ ?_ ?_) (tack _)
+                  · simp [Op.sig, hk]
+                  · exact fun f hf => hf
+                · rfl
+                · intro p hp; exact hp
+                · intro p hp; exact hp
+                · rfl
+                · rfl
 
 theorem take_succ_of_get {l : List Frame} {n : Nat} {f : Frame} (h : l[n]? = some f) :
     l.take (n + 1) = l.take n ++ [f] := by
